@@ -151,8 +151,12 @@ def _int_from(n):
     m = _FROM_RE.match(r)
     if m and m.group(1) == "From" and m.group(2) in INT_TYS and m.group(3) in INT_TYS and n.get("ty") in INT_TYS:
         return {"k": "cast", "e": n["args"][0], "ln": n.get("ln"), "ty": n.get("ty"), "norm": "int-from"}
-    # x.into() resolves to <T as Into<U>>::into -> From impl; the driver reports the blanket impl, so use the types
     c = n.get("callee") or ""
+    # char::from(byte) is `byte as char` (every u8 is a scalar value)
+    if n.get("ty") == "char" and (hir.simp(n["args"][0]) or {}).get("ty") == "u8" and \
+            (c in ("core::convert::Into::into", "core::convert::From::from") or r.endswith("for char>::from") or "<char as core::convert::From<u8>>::from" in (r or c)):
+        return {"k": "cast", "e": n["args"][0], "ln": n.get("ln"), "ty": "char", "norm": "int-from"}
+    # x.into() resolves to <T as Into<U>>::into -> From impl; the driver reports the blanket impl, so use the types
     if c in ("core::convert::Into::into", "core::convert::From::from") and n.get("ty") in INT_TYS and \
             (hir.simp(n["args"][0]) or {}).get("ty") in INT_TYS:
         return {"k": "cast", "e": n["args"][0], "ln": n.get("ln"), "ty": n.get("ty"), "norm": "int-from"}
@@ -313,6 +317,21 @@ def _take_while_count(ids):
             i += 1
         return res
     return fn
+
+
+def _position_by_ref(n):
+    """`xs.iter().position(|&b| c)` -> `xs.iter().copied().position(|b| c)`: the closure sees the same values in the same order
+    (the pattern `&b` copies the element out of the reference)."""
+    if not (n.get("k") == "call" and (n.get("callee") or "") == "core::iter::traits::iterator::Iterator::position" and len(n.get("args", [])) == 2):
+        return n
+    it, clo = hir.simp(n["args"][0]), hir.simp(n["args"][1])
+    if not (isinstance(it, dict) and it.get("k") == "call" and (it.get("callee") or "") == "core::slice::<impl [T]>::iter" and len(it["args"]) == 1):
+        return n
+    if not (isinstance(clo, dict) and clo.get("k") == "closure" and len(clo.get("params", [])) == 1 and clo["params"][0].get("k") == "pref"
+            and clo["params"][0]["p"].get("k") == "pbind"):
+        return n
+    copied = {"k": "call", "callee": "core::iter::traits::iterator::Iterator::copied", "args": [n["args"][0]], "ln": n.get("ln"), "norm": "position-by-ref"}
+    return dict(n, args=[copied, dict(clo, params=[clo["params"][0]["p"]])], norm="position-by-ref")
 
 
 def _map_fusion(n):
@@ -1809,6 +1828,7 @@ def normalise_crate(name, crate):
         h = map_tree(h, _then_some)
         h = map_tree(h, _try_for_each(ids))
         h = map_tree(h, _take_while_count(ids))
+        h = map_tree(h, _position_by_ref)
         h = map_tree(h, _explicit_try(ids))
         h = unroll_const_loops(h, const_bodies, ids)
         h = specialise_range_arms(h, ids)
